@@ -408,9 +408,10 @@ const (
 	TimeoutAll
 	Redeliver
 	Isolate
+	DropAll
 )
 
-var kindNames = [...]string{"deliver", "DROP", "DEFER", "TIMEOUT", "timeout-all-undecided", "REDELIVER", "ISOLATE-until-next-timeout"}
+var kindNames = [...]string{"deliver", "DROP", "DEFER", "TIMEOUT", "timeout-all-undecided", "REDELIVER", "ISOLATE-until-next-timeout", "LOSE-BROADCAST"}
 
 type Event struct {
 	Kind EventKind
@@ -598,6 +599,18 @@ func (w *World) Deviations() []Event {
 			out = append(out, Event{Kind: Isolate, To: o.ID})
 		}
 	}
+	// the oldest broadcast still in flight is lost for everybody who has not received it yet
+	if len(w.Pending) > 0 {
+		n := 0
+		for _, p := range w.Pending {
+			if p.Msg == w.Pending[0].Msg {
+				n++
+			}
+		}
+		if n > 1 {
+			out = append(out, Event{Kind: DropAll, Msg: w.Pending[0].Msg})
+		}
+	}
 	for _, h := range w.C.Honest {
 		for i, m := range w.Last[h] {
 			out = append(out, Event{Kind: Redeliver, To: h, Msg: m, Idx: i})
@@ -678,6 +691,17 @@ func (w *World) Apply(ev Event) []Report {
 		ev.Msg = w.Last[ev.To][ev.Idx]
 		w.Trace[len(w.Trace)-1] = ev
 		reps = append(reps, w.deliver(w.Op(ev.To), ev.Msg, ev))
+	case DropAll:
+		id := w.Pending[0].Msg
+		ev.Msg = id
+		w.Trace[len(w.Trace)-1] = ev
+		kept := w.Pending[:0:0]
+		for _, p := range w.Pending {
+			if p.Msg != id {
+				kept = append(kept, p)
+			}
+		}
+		w.Pending = kept
 	case Isolate:
 		if w.Isolated == nil {
 			w.Isolated = map[spectypes.OperatorID]bool{}
@@ -809,10 +833,10 @@ func (w *World) DescribeTrace() []string {
 	var out []string
 	for _, e := range w.Trace {
 		s := kindNames[e.Kind]
-		if e.Kind != TimeoutAll {
+		if e.Kind != TimeoutAll && e.Kind != DropAll {
 			s += fmt.Sprintf(" op=%d", e.To)
 		}
-		if e.Kind == Deliver || e.Kind == Drop || e.Kind == Defer || e.Kind == Redeliver {
+		if e.Kind == Deliver || e.Kind == Drop || e.Kind == Defer || e.Kind == Redeliver || e.Kind == DropAll {
 			s += " " + w.P.Describe(e.Msg)
 		}
 		out = append(out, s)
